@@ -30,6 +30,11 @@ THEOREMS = [
     "JanetModel.Props.C15.movopt_tables_sound_partial",
     "JanetModel.Props.C15.movopt_getindex",
     "JanetModel.Bytecode.VM.step_core",
+    "JanetModel.Bytecode.VMPasses.stepCore_respects",
+    "JanetModel.Bytecode.VMPasses.movopt_preserves",
+    "JanetModel.Bytecode.VMPasses.movopt_preserves_tables",
+    "JanetModel.Props.C15.movopt_preserves_instance",
+    "JanetModel.Props.C15.movopt_tables_sound_or_getindex",
     "JanetModel.Bytecode.VMPasses.remove_noops_preserves",
     "JanetModel.Bytecode.VMPasses.remove_noops_sourcemap",
     "JanetModel.Bytecode.VMPasses.removeNoopsFull_get",
